@@ -99,6 +99,14 @@ def listings(pattern, folders, opts):
         for i, (fi, en) in enumerate(zip(lst, entries)):
             c.append(fi.attrs["filename"] == en["name"])
             c.append(fi.attrs["is_directory"] == (en["kind"] == "d"))
+            # the time shown for a member is that member's own LastWriteTime – none where the archive stores none
+            ct = fi.attrs["creationtime"]
+            if en.get("mtime") is None:
+                c.append(ct is None)
+            else:
+                c.append(isinstance(ct, tuple) and ct[0] == "dt" and ct[1] is not None)
+                if isinstance(ct, tuple) and ct[1] is not None:
+                    c.append(eq(eng, ct[1], en["mtime"]))
             if en["kind"] in "fl":
                 k, off, size = w.member_range[i]
                 c.append(eq(eng, fi.attrs["uncompressed"], size))
@@ -162,6 +170,11 @@ def replay(pattern, folders, opts, witness):
         for f, e in zip(z.list(), entries):
             if f.is_directory != (e["kind"] == "d"):
                 return True, "is_directory of %s is %s" % (e["name"], f.is_directory)
+            from py7zr.helpers import filetime_to_dt
+
+            want_t = None if e.get("mtime") is None else filetime_to_dt(e["mtime"])
+            if f.creationtime != want_t:
+                return True, "list() shows %s as the time of %s, whose LastWriteTime is %s" % (f.creationtime, e["name"], want_t)
             if e["kind"] in "fl":
                 if f.uncompressed != len(datas[di]):
                     return True, "size of %s" % e["name"]
@@ -199,13 +212,26 @@ def replay(pattern, folders, opts, witness):
 
 
 # ------------------------------------------------------------------ method names of every coder chain
-def method_names(ncoders):
+def _lists(table, picks, layout, first):
+    """coder lists handed to get_methods_names.  Default: first coder alone in a folder, the others chained in a second folder;
+    with `layout` (lists of pick indices, -1 = the concrete method `first`) one list per folder"""
+    if layout is None:
+        return [[{"method": table[picks[0]][0]}]] + ([[{"method": table[k][0]} for k in picks[1:]]] if len(picks) > 1 else [])
+    return [[{"method": table[first if i < 0 else picks[i]][0]} for i in fl] for fl in layout]
+
+
+def _present(picks, layout, first):
+    return list(picks) + ([first] if layout is not None and any(i < 0 for fl in layout for i in fl) else [])
+
+
+def method_names(ncoders, layout=None, first=0):
     """get_methods_names on chains whose coders are symbolic picks from the live table of supported methods"""
     from py7zr.compressor import SupportedMethods
 
     table = [(m["id"], m["name"]) for m in SupportedMethods.methods]
-    r = ObResult(bounds="%d folder(s) x coder(s) whose method is a symbolic index into the %d supported methods %r" % (
-        ncoders, len(table), [n for _, n in table]))
+    r = ObResult(bounds="%d symbolic coder(s), each a symbolic index into the %d supported methods %r; folders %s" % (
+        ncoders, len(table), [n for _, n in table],
+        "[[c0],[c1..]]" if layout is None else "%r with -1 = %s (several folders whose chains have equal length and the same first coder)" % (layout, table[first][1])))
     from vf.pysym.engine import Engine
 
     eng = Engine(["py7zr.compressor"], intmode="int")
@@ -221,36 +247,46 @@ def method_names(ncoders):
                     k = c
                     break
             picks.append(k)
-        # first coder alone in a folder, the others chained in a second folder
-        lists = [[{"method": table[picks[0]][0]}]] + ([[{"method": table[k][0]} for k in picks[1:]]] if len(picks) > 1 else [])
+        lists = _lists(table, picks, layout, first)
         return dict(picks=picks, names=e.call("py7zr.compressor", "get_methods_names", lists))
 
     def post(o):
-        want = sorted(set(table[k][1].lower() for k in o["picks"]))
+        want = sorted(set(table[k][1].lower() for k in _present(o["picks"], layout, first)))
         got = [n.lower() for n in o["names"]]
         return [sorted(got) == want]   # every coder present is named, once, and nothing else (letter case is not held against it)
 
     decide(eng, harness, post, {"method%d" % i: v for i, v in enumerate(idx)}, r,
            describe=lambda o: "%s -> %s" % ([table[k][1] for k in o["picks"]], o["names"]))
     _cex(r, "method_names", lambda w_: dict(module="vf.props.c10", func="replay_methods", kwargs=dict(
-        picks=[min(int(w_.get("method%d" % i, 0)), len(table) - 1) for i in range(ncoders)])),
+        picks=[min(int(w_.get("method%d" % i, 0)), len(table) - 1) for i in range(ncoders)], layout=layout, first=first)),
          signature=lambda w_: {"obligation": "method_names"})
     return r
 
 
-def replay_methods(picks):
+def replay_methods(picks, layout=None, first=0):
     from py7zr.compressor import SupportedMethods, get_methods_names
 
     table = [(m["id"], m["name"]) for m in SupportedMethods.methods]
-    lists = [[{"method": table[picks[0]][0]}]] + ([[{"method": table[k][0]} for k in picks[1:]]] if len(picks) > 1 else [])
+    lists = _lists(table, picks, layout, first)
     got = get_methods_names(lists)
-    want = sorted(set(table[k][1].lower() for k in picks))
-    return sorted(n.lower() for n in got) != want, "coders %s reported as %s" % ([table[k][1] for k in picks], got)
+    want = sorted(set(table[k][1].lower() for k in _present(picks, layout, first)))
+    return sorted(n.lower() for n in got) != want, "folders %s reported as %s" % (
+        [[[n for i_, n in table if i_ == c["method"]][0] for c in fl] for fl in lists], got)
 
 
 def units(tier):
     M = "vf.props.c10"
     us = [Unit("method_names[%d]" % n, M, "method_names", dict(ncoders=n), 900) for n in ((1, 2) if tier == "quick" else (1, 2, 3))]
+    # two (three) folders whose chains have the same length and the same first coder but differ behind it; the shared
+    # coder is concrete per shard (LZMA2, BCJ, 7zAES in quick; every method in thorough), the others symbolic
+    from py7zr.compressor import SupportedMethods
+
+    n = len(SupportedMethods.methods)
+    for k in ((1, 4, n - 1) if tier == "quick" else range(n)):
+        us.append(Unit("method_names[2 folders, first=%d]" % k, M, "method_names", dict(ncoders=2, layout=[[-1, 0], [-1, 1]], first=k), 900))
+        us.append(Unit("method_names[2 folders, last=%d]" % k, M, "method_names", dict(ncoders=2, layout=[[0, -1], [1, -1]], first=k), 900))
+    if tier != "quick":
+        us.append(Unit("method_names[3 folders]", M, "method_names", dict(ncoders=2, layout=[[-1, 0], [-1, 1], [-1, 0]], first=1), 900))
     shapes = RC.shapes(tier) + [("ff", [2], {"aes": True, "ncoders": 2}), ("ff", [1, 1], {"aes": True, "ncoders": 2, "password": True}),
                                 ("f", [1], {"password": True})]
     for (p, f, o) in shapes:
